@@ -883,9 +883,9 @@ var Engine = &core.Engine{
 	},
 	Cases: func(tier string) int {
 		if tier == "thorough" {
-			return 60000
+			return 150000
 		}
-		return 1500
+		return 12000
 	},
 	Batch:         func(string) int { return 128 },
 	Run:           run,
